@@ -91,3 +91,25 @@ package beacon
 //@   csensures[only_expired] forall i in 0..len(shiftedTreasures): expired(shiftedTreasures[i], now)
 //@   csensures[no_expired_left_while_budget] forall i in 0..len(b.treasuresByOrder): expired(b.treasuresByOrder[i], now) ==> len(shiftedTreasures) >= howMany
 //@   csensures[nothing_lost] len(shiftedTreasures) + len(b.treasuresByOrder) == old(len(b.treasuresByOrder))
+
+// P (property C07): an ordered-index read returns page(window(index)): the window is the
+// maximal interval [startIdx, endIdx] of positions whose sort attribute lies in [FromTime, ToTime)
+// (the whole index without a time filter), and the page is its elements From, From+1, ... , at most
+// Limit of them (all of them when Limit == 0), in index order.
+//@ func (*beacon).GetManyFromOrderPosition(b, orderPosition) (page, err)
+//@   property C07
+//@   nopanic
+//@   requires[request] orderPosition != nil && orderPosition.From >= 0 && orderPosition.From <= 2147483647 && orderPosition.Limit >= -2147483648 && orderPosition.Limit <= 2147483647
+//@   requires[sorted] sortedByTime(b)
+//@   requires[records] forall i in 0..len(b.treasuresByOrder): b.treasuresByOrder[i] != nil
+//@   modifies b.initialized
+//@   loop 0 invariant[copying] 0 <= i && i <= resultSize && len(result) == resultSize && resultSize == actualEnd - actualStart + 1 && 0 <= actualStart && actualEnd < len(b.treasuresByOrder) && fresh(result)
+//@   loop 0 invariant[copied] forall k in 0..i: result[k] == b.treasuresByOrder[actualStart + k]
+//@   csensures[unordered_index_is_error] !b.isOrdered ==> err != nil
+//@   csensures[ordered_index_answers] b.isOrdered ==> err == nil
+//@   csensures[window_without_filter] b.isOrdered && orderPosition.FromTime == nil && orderPosition.ToTime == nil ==> startIdx == 0 && endIdx == len(b.treasuresByOrder) - 1
+//@   csensures[window_inside] b.isOrdered && (orderPosition.FromTime != nil || orderPosition.ToTime != nil) ==> forall k in startIdx..endIdx+1: inwin(ts(b, k), orderPosition.FromTime, orderPosition.ToTime)
+//@   csensures[window_maximal] b.isOrdered && (orderPosition.FromTime != nil || orderPosition.ToTime != nil) && endIdx >= startIdx ==> (forall k in 0..startIdx: !inwin(ts(b, k), orderPosition.FromTime, orderPosition.ToTime)) && (forall k in endIdx+1..len(b.treasuresByOrder): !inwin(ts(b, k), orderPosition.FromTime, orderPosition.ToTime))
+//@   csensures[window_empty] b.isOrdered && (orderPosition.FromTime != nil || orderPosition.ToTime != nil) && endIdx < startIdx ==> (forall k in 0..len(b.treasuresByOrder): !inwin(ts(b, k), orderPosition.FromTime, orderPosition.ToTime)) && len(page) == 0
+//@   csensures[page_length] b.isOrdered && endIdx >= startIdx ==> len(page) == max(0, min(endIdx, ite(orderPosition.Limit == 0, endIdx, startIdx + orderPosition.From + orderPosition.Limit - 1)) - (startIdx + orderPosition.From) + 1)
+//@   csensures[page_elements] b.isOrdered ==> forall k in 0..len(page): page[k] == b.treasuresByOrder[startIdx + orderPosition.From + k]
